@@ -1169,7 +1169,7 @@ def m_opt_combinators(m, callee, a):
     raise Unsupported(callee)
 
 
-@model(re.compile(r'^<.* as Iterator>::(map|filter|rev|skip|take|all|any|count|position|for_each|sum|last|nth|peekable|cloned|copied|zip|min|max|find|skip_while|take_while|filter_map|flat_map|chain|step_by)$'))
+@model(re.compile(r'^<.* as Iterator>::(map|filter|rev|skip|take|all|any|count|position|for_each|sum|product|last|nth|peekable|cloned|copied|zip|min|max|find|skip_while|take_while|filter_map|flat_map|chain|step_by)$'))
 def m_iter_adapters(m, callee, a):
     key = canon_last(callee)
     it = a[0]
@@ -1223,9 +1223,23 @@ def m_iter_adapters(m, callee, a):
         xs = drain(); return some(xs[-1]) if xs else none()
     if key == 'nth':
         xs = drain(); n = m.concretize(a[1]); return some(xs[n]) if n < len(xs) else none()
-    if key == 'sum':
-        acc = 0
-        for x in drain(): acc = m.binop('Add', acc, deref_char(x)) if isinstance(x, Sym) or isinstance(acc, Sym) else acc + deref_char(x)
+    if key in ('sum', 'product'):
+        # the element type decides the arithmetic: floats fold with IEEE ops, integers with overflow checks
+        xs = [deref_char(x) for x in drain()]
+        isf = any(isinstance(v, float) or (isinstance(v, Sym) and v.ty == 'f64') for v in xs) or 'f64' in callee
+        acc = (0.0 if key == 'sum' else 1.0) if isf else (0 if key == 'sum' else 1)
+        for v in xs:
+            if isf:
+                acc = m.binop('Add' if key == 'sum' else 'Mul', acc, v)
+            elif isinstance(v, Sym) or isinstance(acc, Sym):
+                ty = v.ty if isinstance(v, Sym) else acc.ty
+                r = m.binop('AddWithOverflow' if key == 'sum' else 'MulWithOverflow', acc if isinstance(acc, Sym) else Sym(z3.BitVecVal(acc, INT_BITS[ty]), ty),
+                            v if isinstance(v, Sym) else Sym(z3.BitVecVal(v, INT_BITS[ty]), ty))
+                if m.branch(r.fields[1].v): raise RustPanic('attempt to add with overflow' if key == 'sum' else 'attempt to multiply with overflow')
+                acc = r.fields[0].v
+            else:
+                acc = acc + v if key == 'sum' else acc * v
+                if not -(1 << 63) <= acc < (1 << 63): raise RustPanic('arithmetic overflow in iterator fold')
         return acc
     raise Unsupported('iterator adapter ' + callee)
 
@@ -1244,3 +1258,138 @@ def canon_last(callee):
     if '::<' in s and s.endswith('>'):
         s = s[:s.rindex('::<')]
     return s.split('::')[-1]
+
+
+# ------------------------------------------------------------------ Rc identity, integer / float methods
+
+@model('Rc::ptr_eq')
+def m_rc_ptr_eq(m, c, a):
+    x, y = deref(a[0]) if isinstance(a[0], Ptr) else a[0], deref(a[1]) if isinstance(a[1], Ptr) else a[1]
+    return x.cell is y.cell
+
+
+@model('Rc::strong_count')
+def m_rc_strong(m, c, a): raise Unsupported('Rc::strong_count is not modelled')
+
+
+def _ity(callee, default='i64'):
+    mm = re.search(r'\b([iu](?:8|16|32|64|128|size))::', callee)
+    return mm.group(1) if mm else default
+
+
+def _isym(v, ty):
+    return v.e if isinstance(v, Sym) else z3.BitVecVal(v, INT_BITS[ty])
+
+
+@model(re.compile(r'^[iu](8|16|32|64|128|size)::(div_euclid|rem_euclid|abs|signum|pow|wrapping_add|wrapping_sub|wrapping_mul|wrapping_neg|checked_add|checked_sub|checked_mul|checked_div|'
+                  r'saturating_add|saturating_sub|min|max|is_negative|is_positive|unsigned_abs|abs_diff)$'))
+def m_int_methods(m, callee, a):
+    from .machine import is_signed, int_range
+    key = canon_last(callee); ty = _ity(callee)
+    lo, hi = int_range(ty); sg = is_signed(ty)
+    x = a[0]; y = a[1] if len(a) > 1 else None
+    sym = isinstance(x, Sym) or isinstance(y, Sym)
+    def cmp(op, p, q): return m.branch(m.binop(op, p, q))
+    if key in ('min', 'max'):
+        less = cmp('Lt', x, y)
+        return (x if less else y) if key == 'min' else (y if less else x)
+    if key == 'is_negative': return cmp('Lt', x, 0)
+    if key == 'is_positive': return cmp('Gt', x, 0)
+    if key == 'signum': return -1 if cmp('Lt', x, 0) else (1 if cmp('Gt', x, 0) else 0)
+    if key == 'abs':
+        if cmp('Eq', x, lo) and sg: raise RustPanic('attempt to negate with overflow')
+        return (Sym(-x.e, ty) if isinstance(x, Sym) else -x) if cmp('Lt', x, 0) else x
+    if key in ('wrapping_add', 'wrapping_sub', 'wrapping_mul'):
+        op = {'wrapping_add': 'Add', 'wrapping_sub': 'Sub', 'wrapping_mul': 'Mul'}[key]
+        if sym: return Sym({'Add': _isym(x, ty) + _isym(y, ty), 'Sub': _isym(x, ty) - _isym(y, ty), 'Mul': _isym(x, ty) * _isym(y, ty)}[op], ty)
+        return wrap_int({'Add': x + y, 'Sub': x - y, 'Mul': x * y}[op], ty)
+    if key in ('checked_add', 'checked_sub', 'checked_mul'):
+        op = {'checked_add': 'AddWithOverflow', 'checked_sub': 'SubWithOverflow', 'checked_mul': 'MulWithOverflow'}[key]
+        if sym:
+            r = m.binop(op, x if isinstance(x, Sym) else Sym(_isym(x, ty), ty), y if isinstance(y, Sym) else Sym(_isym(y, ty), ty))
+            return none() if m.branch(r.fields[1].v) else some(r.fields[0].v)
+        v = {'AddWithOverflow': x + y, 'SubWithOverflow': x - y, 'MulWithOverflow': x * y}[op]
+        return some(v) if lo <= v <= hi else none()
+    if key in ('div_euclid', 'rem_euclid', 'checked_div'):
+        if cmp('Eq', y, 0):
+            if key == 'checked_div': return none()
+            raise RustPanic('attempt to divide by zero')
+        if sg and cmp('Eq', x, lo) and cmp('Eq', y, -1):
+            if key == 'checked_div': return none()
+            raise RustPanic('attempt to divide with overflow')
+        if sym:
+            ex, ey = _isym(x, ty), _isym(y, ty)
+            q = (ex / ey) if sg else z3.UDiv(ex, ey)
+            r = z3.SRem(ex, ey) if sg else z3.URem(ex, ey)
+            if key == 'checked_div': return some(Sym(q, ty))
+            if not sg: return Sym(q if key == 'div_euclid' else r, ty)
+            neg = r < 0
+            qe = z3.If(neg, z3.If(ey > 0, q - 1, q + 1), q)
+            re_ = z3.If(neg, z3.If(ey > 0, r + ey, r - ey), r)
+            return Sym(qe if key == 'div_euclid' else re_, ty)
+        q = abs(x) // abs(y); q = q if (x < 0) == (y < 0) else -q
+        r = x - q * y
+        if key == 'checked_div': return some(q)
+        if r < 0:
+            if y > 0: q, r = q - 1, r + y
+            else: q, r = q + 1, r - y
+        return q if key == 'div_euclid' else r
+    if key == 'pow':
+        e = m.concretize(y)
+        acc = 1
+        for _ in range(e):
+            r = m.binop('MulWithOverflow', acc if isinstance(acc, Sym) else Sym(_isym(acc, ty), ty), x if isinstance(x, Sym) else Sym(_isym(x, ty), ty)) if sym else None
+            if r is None:
+                acc = acc * x
+                if not lo <= acc <= hi: raise RustPanic('attempt to multiply with overflow')
+            else:
+                if m.branch(r.fields[1].v): raise RustPanic('attempt to multiply with overflow')
+                acc = r.fields[0].v
+        return acc
+    raise Unsupported('integer method ' + callee)
+
+
+@model(re.compile(r'^f64::(abs|floor|ceil|round|trunc|sqrt|is_nan|is_infinite|is_finite|min|max|powi|mul_add|signum|is_sign_negative|is_sign_positive|to_bits|from_bits|fract)$'))
+def m_f64_methods(m, callee, a):
+    key = canon_last(callee)
+    x = a[0]; y = a[1] if len(a) > 1 else None
+    sym = any(isinstance(v, Sym) for v in a)
+    if not sym:
+        import math
+        if key == 'abs': return abs(x)
+        if key == 'floor': return float(math.floor(x)) if math.isfinite(x) else x
+        if key == 'ceil': return float(math.ceil(x)) if math.isfinite(x) else x
+        if key == 'trunc': return float(math.trunc(x)) if math.isfinite(x) else x
+        if key == 'round': return (float(math.floor(abs(x) + 0.5)) * (1 if x >= 0 else -1)) if math.isfinite(x) else x
+        if key == 'fract': return x - float(math.trunc(x)) if math.isfinite(x) else float('nan')
+        if key == 'sqrt': return math.sqrt(x) if x >= 0 else float('nan')
+        if key == 'is_nan': return x != x
+        if key == 'is_infinite': return math.isinf(x)
+        if key == 'is_finite': return math.isfinite(x)
+        if key == 'min': return y if x != x else (x if y != y else min(x, y))
+        if key == 'max': return y if x != x else (x if y != y else max(x, y))
+        if key == 'powi': return x ** y
+        if key == 'mul_add': return math.fma(x, y, a[2]) if hasattr(math, 'fma') else x * y + a[2]
+        if key == 'signum': return float('nan') if x != x else math.copysign(1.0, x)
+        if key == 'is_sign_negative': return math.copysign(1.0, x) < 0
+        if key == 'is_sign_positive': return math.copysign(1.0, x) > 0
+        if key == 'to_bits':
+            import struct
+            return struct.unpack('<Q', struct.pack('<d', x))[0]
+    ex = to_z3(x, 'f64')
+    rm = z3.RNE()
+    if key == 'abs': return Sym(z3.fpAbs(ex), 'f64')
+    if key == 'is_nan': return m.branch(Sym(z3.fpIsNaN(ex), 'bool'))
+    if key == 'is_infinite': return m.branch(Sym(z3.fpIsInf(ex), 'bool'))
+    if key == 'is_finite': return m.branch(Sym(z3.Not(z3.Or(z3.fpIsInf(ex), z3.fpIsNaN(ex))), 'bool'))
+    if key == 'is_sign_negative': return m.branch(Sym(z3.fpIsNegative(ex), 'bool'))
+    if key == 'is_sign_positive': return m.branch(Sym(z3.fpIsPositive(ex), 'bool'))
+    if key == 'floor': return Sym(z3.fpRoundToIntegral(z3.RTN(), ex), 'f64')
+    if key == 'ceil': return Sym(z3.fpRoundToIntegral(z3.RTP(), ex), 'f64')
+    if key == 'trunc': return Sym(z3.fpRoundToIntegral(z3.RTZ(), ex), 'f64')
+    if key == 'round': return Sym(z3.fpRoundToIntegral(z3.RNA(), ex), 'f64')
+    if key == 'sqrt': return Sym(z3.fpSqrt(rm, ex), 'f64')
+    if key == 'min': return Sym(z3.fpMin(ex, to_z3(y, 'f64')), 'f64')
+    if key == 'max': return Sym(z3.fpMax(ex, to_z3(y, 'f64')), 'f64')
+    if key == 'mul_add': return Sym(z3.fpFMA(rm, ex, to_z3(y, 'f64'), to_z3(a[2], 'f64')), 'f64')
+    raise Unsupported('f64 method on a symbolic value: ' + callee)
